@@ -172,6 +172,25 @@ def gen_grow(rng, n, base, brief=False):
     return 'B=%d;%s|%s' % (base, ','.join(objs), ' '.join(ops))
 
 
+def exhaustive_cases(base, maxlen=4):
+    """small scope, complete: every admissible sequence of at most `maxlen` operations over three
+    objects (alloc managed / root, del, forced collection), for stack words = none / object 0 /
+    all, two address patterns (one home; last slot + wrap) and two ownership relations"""
+    import itertools
+    alpha = ['a0', 'a1', 'a2', 'A1', 'd0', 'd1', 'd2', 'c']
+    res = []
+    for offs in ([0, 55, 110], [4, 59, 9]):
+        for own in ({}, {0: [1], 1: [0, 2]}):
+            objs = ','.join('%d:%d%s' % (k, offs[k], (':' + '.'.join(map(str, own[k]))) if k in own else '') for k in range(3))
+            for words in ('k', 'k0', 'k0.1.2'):
+                for n in range(1, maxlen + 1):
+                    for seq in itertools.product(alpha, repeat=n):
+                        c = 'B=%d;%s|%s %s' % (base, objs, words, ' '.join(seq))
+                        if admissible(c):
+                            res.append(c)
+    return res
+
+
 def parse_case(case):
     hd, ops = case.split('|', 1)
     b, objs = hd.split(';', 1)
@@ -477,7 +496,13 @@ def run(ctx):
                 cases.append(gen_case(ctx.rng, 14, 6, base))
             elif j % 40 == 1:
                 # growth past 11, 23, 53, 101 (197, 389, 683 in the thorough tier) slots and back
-                cases.append(gen_grow(ctx.rng, ctx.rng.choice([30, 60, 100, 130] if quick else [60, 130, 200, 400, 650]), base))
+                if quick:
+                    cases.append(gen_grow(ctx.rng, ctx.rng.choice([30, 60, 100, 130]), base))
+                else:
+                    nb = ctx.rng.choice([60] * 10 + [130] * 6 + [200] * 3 + [400])
+                    if j % 4000 == 1:
+                        nb = 650
+                    cases.append(gen_grow(ctx.rng, nb, base, brief=nb >= 400))
             elif not quick and j % 50 == 2:
                 cases.append(gen_case(ctx.rng, 1500, nmax, base))
             else:
@@ -489,6 +514,12 @@ def run(ctx):
     if not quick and not d.oracle_fail:
         # past 1259 and 2417 slots and back; slot arrays compared by hash (brief dumps)
         d.feed([gen_grow(ctx.rng, nbig, base, brief=True) for nbig in (1200, 1500)])
+    if not d.oracle_fail:
+        ex = exhaustive_cases(base, 3 if quick else 4)
+        for i in range(0, len(ex), 2000):
+            d.feed(ex[i:i + 2000])
+        ctx.cov['exhaustive'] = ('all %d admissible sequences of <= %d operations over {a0,a1,a2,A1,d0,d1,d2,c} x stack words {none, 0, all} '
+                                 'x 2 address patterns x 2 ownership relations' % (len(ex), 3 if quick else 4))
 
     def extra(dd):
         dd.feed([gen_case(ctx.rng, 60, 20, base) for _ in range(10 * min(n, 2000))])
